@@ -109,6 +109,9 @@ def bytes_oracle(op, line, derived):
     if o == "framingtx" and line == "pass" and not py_json_lead(b) and not compact_ok:
         return ("non-canonical-bytes", f"ParseTransaction let {op['name']} through its framing test although the bytes are not the canonical compact "
                 "serialisation (padding / CR / LF / other alphabet / trailing bits / extra segment): the same signed transaction gets a second reference")
+    if o == "framingtx" and op.get("accepted") and op.get("same_content") and not op.get("identical") and py_json_lead(b):
+        return ("json-serialisation-second-reference", f"ParseTransaction ACCEPTED {op['name']}: the JSON serialisation of an already signed transaction (any white space / member "
+                "order gives other bytes): the same signed transaction gets any number of references")
     if o == "framingtx" and op.get("accepted") and op.get("same_content") and not op.get("identical") and not py_json_lead(b):
         return ("non-canonical-bytes", f"ParseTransaction ACCEPTED {op['name']}: a re-encoding of a signed transaction, other bytes hence another reference")
     return None
@@ -128,7 +131,7 @@ def run(ctx):
                 "accept_vcJsonLdDoc", "toLower_guard_accepts_conflated_pair",
                 "fact_dag_framing_consts", "fact_alphabet", "fact_signatureAlgorithm", "rawurl_roundtrip", "encode_is_canonical", "canonical_segment_unique",
                 "canonical_segment_alphabet", "compact_shape", "compact_reference_unique", "compact_reference_unique_ref", "canonical_compact_passes",
-                "parseTxFraming_pass", "accept_dagTx_bytes", "accepted_dagTx_one_reference", "derived_alg_listed", "derived_alg_fits_nist", "accept_ldProof_derived",
+                "json_form_admits_whitespace_variants", "parseTxFraming_pass", "accept_dagTx_bytes", "accepted_dagTx_one_reference", "derived_alg_listed", "derived_alg_fits_nist", "accept_ldProof_derived",
                 "fact_parseJWT", "fact_parseJWS", "fact_dpopParse", "fact_dagTx", "fact_apiToken", "fact_jar_ldproof"]
     for r in required:
         if not any(t.endswith("Props." + r) for t in thms):
